@@ -215,7 +215,7 @@ def do_prop(a):
                     undecided_tasks.append({"target": bk, "cfg_label": "bounded", "message": bv})
             bounded["ran"] = True
             bounded["label"] = "BOUNDED stand-in (run-time contract evaluation on the real functions): never counted as proved"
-            bounded["derived_evaluations"] = "every sample is also evaluated with its >= 2-D arrays (incl. those inside xarray objects) in Fortran / mixed memory order; the first samples of each function also with (some of) their float64 arrays rounded and cast to int64 (dtype variants); the first samples of each function also under two call histories (results of an identical earlier call scribbled over; the same input array objects changed in place); the samplers of the callee contracts the targets rely on are run as well"
+            bounded["derived_evaluations"] = "every sample is also evaluated with its >= 2-D arrays (incl. those inside xarray objects) in Fortran / mixed memory order; the first samples of each function also with (some of) their float64 arrays rounded and cast to int64 (dtype variants); the first samples of each function also under two call histories (results of an identical earlier call scribbled over; the same input array objects changed in place; for methods, the same object first serving a call on other data of the same shapes); the samplers of the callee contracts the targets rely on are run as well"
             bounded["wall_s"] = round(time.time() - tb, 2)
             bounded_failures = bounded.pop("failures", [])
             bounded["failures_n"] = len(bounded_failures)
